@@ -40,6 +40,9 @@ pub struct Initiator {
     /// will be forwarded using the channel.
     early_list: Vec<(BytesStr, mpsc::Sender<EarlyEvent>)>,
 
+    /// To-tags of the sessions which were created directly from a success response
+    session_tags: Vec<BytesStr>,
+
     pub support_timer: bool,
     pub support_100rel: bool,
 
@@ -64,6 +67,7 @@ impl Initiator {
             dialog_builder: dialog,
             transaction: None,
             early_list: vec![],
+            session_tags: vec![],
             support_timer: true,
             support_100rel: true,
             timer_config: InitiatorTimerConfig {
@@ -130,12 +134,23 @@ impl Initiator {
                 // Response is > 100 and contains a to-tag, see if we have a early dialog for the given tag
                 if let 101..=299 = code {
                     // Only forwards success responses
-                    if let Some((_, tx)) = self.early_list.iter().find(|(tag, _)| tag == to_tag) {
+                    if let Some(pos) = self.early_list.iter().position(|(tag, _)| tag == to_tag) {
                         // Found a early dialog for the tag, forward
-                        tx.send(EarlyEvent::Response(response))
+                        if self.early_list[pos]
+                            .1
+                            .send(EarlyEvent::Response(response))
                             .await
-                            .expect("failed to forward response, early dropped");
+                            .is_err()
+                        {
+                            // The early dialog (or the session it turned into) is no longer
+                            // listening, e.g. this is a retransmission of its 2xx
+                            log::debug!("early dialog no longer receives responses, ignoring");
+                        }
 
+                        continue;
+                    } else if self.session_tags.contains(to_tag) {
+                        // Retransmission of a response inside a dialog which already is a session
+                        log::debug!("response for an established session, ignoring");
                         continue;
                     } else if let 101..=199 = code {
                         let early = self.create_early_dialog(&response)?;
@@ -146,19 +161,15 @@ impl Initiator {
                     } else if let 200..=299 = code {
                         let session = self.create_session(&response)?;
 
+                        self.session_tags.push(to_tag.clone());
+
                         return Ok(Response::Session(session, response));
                     } else {
                         unreachable!("all reachable cases covered")
                     }
                 } else {
                     // Response is failure: terminate all early dialogs
-                    for (_, early) in self.early_list.drain(..) {
-                        if early.send(EarlyEvent::Terminate).await.is_err() {
-                            log::warn!(
-                                "failed to forward termination event, receiver of early dropped"
-                            );
-                        }
-                    }
+                    self.terminate_early_dialogs().await;
 
                     return Ok(Response::Failure(response));
                 }
@@ -167,11 +178,22 @@ impl Initiator {
                 log::warn!("Got non-100 response without To-tag");
 
                 if code >= 300 {
+                    // A failure always ends the INVITE, with or without To-tag
+                    self.terminate_early_dialogs().await;
+
                     return Ok(Response::Failure(response));
                 } else {
                     log::warn!("Cannot handle 1XX/2XX response without To-tag, ignoring");
                     continue;
                 }
+            }
+        }
+    }
+
+    async fn terminate_early_dialogs(&mut self) {
+        for (_, early) in self.early_list.drain(..) {
+            if early.send(EarlyEvent::Terminate).await.is_err() {
+                log::debug!("failed to forward termination event, receiver of early dropped");
             }
         }
     }
@@ -263,7 +285,13 @@ impl Early {
     pub async fn receive(&mut self) -> Result<EarlyResponse, Error> {
         let dialog = self.dialog.as_mut().unwrap();
 
-        match self.response_rx.recv().await.expect("dropped initiator") {
+        // When the initiator is gone (e.g. its transaction finished after another fork answered)
+        // no further response can arrive for this early dialog
+        let Some(event) = self.response_rx.recv().await else {
+            return Ok(EarlyResponse::Terminated);
+        };
+
+        match event {
             EarlyEvent::Response(response) => match response.line.code.into_u16() {
                 101..=199 => {
                     let rseq = get_rseq(&response);
